@@ -1,7 +1,8 @@
 (* C20Run.v — case decoder for C20.
    JSON wire format: 0 | 1 b | 2 n | 3 len bytes.. | 4 n elems.. | 5 n (len keybytes.. value)..  (objects sorted by key on output)
    [1; base; overlay]  -> [1; merged; merged-again; 1; 1] | [0]
-   [2; ebpf; edt; policy; switch_v2; prev_chainer; n; (ptype vtype npp)*] -> [0] | [1; n; (idx type vtype bw ciliumdp)*] *)
+   [2; ebpf; edt; policy; switch_v2; prev_chainer; n; (ptype vtype npp bwin)*]
+   (bwin: a bandwidth_mode the input entry already carries; the generator never reads it) -> [0] | [1; n; (idx type vtype bw ciliumdp)*] *)
 From Coq Require Import ZArith List Bool.
 From TV Require Import Codec C20Model.
 Import ListNotations.
@@ -77,7 +78,7 @@ Definition enc_cdp (d : option dpath) : Z :=
 
 Fixpoint dec_plugins (n : nat) (l : list Z) : list plugin :=
   match n, l with
-  | S n', t :: v :: p :: r => {| p_type := dec_ptype t; p_vtype := dec_vtype v; p_npp := dec_npp p |} :: dec_plugins n' r
+  | S n', t :: v :: p :: _ :: r => {| p_type := dec_ptype t; p_vtype := dec_vtype v; p_npp := dec_npp p |} :: dec_plugins n' r
   | _, _ => []
   end.
 
@@ -157,7 +158,7 @@ Definition chk_chain (eb : bool) (plugins : list plugin) (o : list Z) : bool :=
             let ty := nth 1 x 0 in let vt := nth 2 x 0 in let bw := nth 3 x 0 in
             (if nth 0 x 0 =? -1 then ty =? 1
              else ty =? enc_ptype (p_type (nth (Z.to_nat (nth 0 x 0)) plugins {| p_type := PNoType; p_vtype := VAbsent; p_npp := NAbsent |})))
-            && (if ty =? 0 then if eb then ((vt =? 1) || (vt =? 2) || (vt =? 3)) && ((bw =? 1) || (bw =? 2)) else vt =? 0 else true)
+            && (if ty =? 0 then if eb then ((vt =? 1) || (vt =? 2) || (vt =? 3)) && ((bw =? 1) || (bw =? 2)) else (vt =? 0) && ((bw =? 0) || (bw =? 1) || (bw =? 2)) else true)
             && (if ty =? 1 then eb else true)) outs
       (* a chainer whenever the last terway entry selected ipvlan / datapath v2 *)
       && (let lastvt := fold_left (fun acc x => if nth 1 x 0 =? 0 then nth 2 x 0 else acc) outs 0 in
